@@ -14,10 +14,15 @@ import (
 	"go/token"
 	"os"
 	"path/filepath"
+	"regexp"
 	"sort"
 	"strconv"
 	"strings"
 )
+
+// package-level string constants and functions of persist/sqlite (filled by main)
+var pkgConsts = map[string]string{}
+var pkgFuncs = map[string]*ast.FuncDecl{}
 
 var statuses = []string{"pending", "rejected", "active", "successful", "failed", "renewed"}
 
@@ -56,7 +61,17 @@ type cell struct {
 	execSeen bool
 }
 
+// functions whose effect the interpreter knows (metric helpers) or that have none on the table
+var knownHelper = map[string]bool{
+	"updatePotentialRevenueMetrics": true, "updateV2PotentialRevenueMetrics": true, "updateEarnedRevenueMetrics": true,
+	"updateV2EarnedRevenueMetrics": true, "updateCollateralMetrics": true, "updateStatusMetrics": true, "updateV2StatusMetrics": true,
+	"getContractStateStmt": true, "getV2ContractStateStmt": true, "incrementCurrencyStatStmt": true, "incrementNumericStatStmt": true,
+	"encode": true, "decode": true, "decodeNullable": true,
+}
+
 type interp struct {
+	ret       bool // a return statement of an inlined helper was reached
+	depth     int
 	fset      *token.FileSet
 	status    string            // concrete prior status
 	param     string            // concrete `status` parameter
@@ -132,6 +147,22 @@ func (in *interp) evalCond(e ast.Expr) (bool, bool) {
 	return false, false
 }
 
+var (
+	wsRe    = regexp.MustCompile(`\s+`)
+	eqRe    = regexp.MustCompile(`\s*=\s*`)
+	aliasRe = regexp.MustCompile(`\b[a-z_][a-z_0-9]*\.([a-z_]+)`)
+	cmtRe   = regexp.MustCompile(`--[^\n]*`)
+)
+
+// normSQL: lower case, comments and table aliases removed, whitespace collapsed, no blanks around `=`
+func normSQL(sql string) string {
+	s := strings.ToLower(cmtRe.ReplaceAllString(sql, " "))
+	s = aliasRe.ReplaceAllString(s, "$1")
+	s = wsRe.ReplaceAllString(s, " ")
+	s = eqRe.ReplaceAllString(s, "=")
+	return s
+}
+
 func boolLit(e ast.Expr) (bool, bool) {
 	if id, ok := e.(*ast.Ident); ok {
 		if id.Name == "true" {
@@ -156,6 +187,42 @@ func (in *interp) call(c *ast.CallExpr) {
 	bucket := map[string]string{
 		"updatePotentialRevenueMetrics": "potential", "updateV2PotentialRevenueMetrics": "potential",
 		"updateEarnedRevenueMetrics": "earned", "updateV2EarnedRevenueMetrics": "earned",
+	}
+	if fd, ok := pkgFuncs[name]; ok && fd.Body != nil && !knownHelper[name] && in.depth < 3 && c.Fun != nil {
+		if _, isIdent := c.Fun.(*ast.Ident); isIdent {
+			// a helper of the package: interpret its body in place; prepared statements passed as
+			// arguments keep their SQL text under the helper's parameter names
+			saved := in.stmts
+			child := map[string]string{}
+			for k, v := range saved {
+				child[k] = v
+			}
+			for k, v := range preparedStmts(fd) {
+				child[k] = v
+			}
+			if fd.Type.Params != nil {
+				i := 0
+				for _, f := range fd.Type.Params.List {
+					for _, nm := range f.Names {
+						if i < len(c.Args) {
+							if id, ok := c.Args[i].(*ast.Ident); ok {
+								if sql, ok := saved[id.Name]; ok {
+									child[nm.Name] = sql
+								}
+							}
+						}
+						i++
+					}
+				}
+			}
+			in.stmts = child
+			in.depth++
+			in.block(fd.Body)
+			in.ret = false
+			in.depth--
+			in.stmts = saved
+			return
+		}
 	}
 	switch {
 	case name == "panic":
@@ -185,7 +252,7 @@ func (in *interp) call(c *ast.CallExpr) {
 		}
 	case strings.HasSuffix(name, ".Exec") && in.stmts[strings.TrimSuffix(name, ".Exec")] != "":
 		sql := in.stmts[strings.TrimSuffix(name, ".Exec")]
-		if !strings.Contains(sql, "contract_status") {
+		if !strings.Contains(strings.ToLower(sql), "contract_status") {
 			return // element insert/update/delete statements: not part of the status table
 		}
 		in.c.execSeen = true
@@ -212,7 +279,7 @@ func (in *interp) call(c *ast.CallExpr) {
 			in.unknown = append(in.unknown, fmt.Sprintf("status metric moves to %s but the row is set to %s", in.c.target, tgt))
 		}
 		in.c.target = tgt
-		low := strings.ToLower(sql)
+		low := normSQL(sql)
 		switch {
 		case strings.Contains(low, "formation_confirmed=true"), strings.Contains(low, "confirmation_index=$"), strings.Contains(low, "confirmation_index=?"):
 			in.c.conf = "set"
@@ -244,7 +311,7 @@ func (in *interp) expr(e ast.Expr) {
 
 func (in *interp) block(b *ast.BlockStmt) {
 	for _, s := range b.List {
-		if in.done {
+		if in.done || in.ret {
 			return
 		}
 		in.stmt(s)
@@ -267,7 +334,14 @@ func (in *interp) stmt(s ast.Stmt) {
 			in.done = true
 		}
 	case *ast.ReturnStmt:
-		// only reached on the error path
+		// in the loop body of the table function: only reached on the error path; inside an inlined helper
+		// a reached return ends the helper (conditions of error paths are never taken)
+		if in.depth > 0 {
+			if !in.c.execSeen && in.c.kind == "error" {
+				in.c.kind = "skip"
+			}
+			in.ret = true
+		}
 	case *ast.IfStmt:
 		if x.Init != nil {
 			in.stmt(x.Init)
@@ -299,6 +373,20 @@ func (in *interp) stmt(s ast.Stmt) {
 
 func preparedStmts(fn *ast.FuncDecl) map[string]string {
 	out := map[string]string{}
+	localConsts := map[string]string{}
+	ast.Inspect(fn.Body, func(n ast.Node) bool {
+		if vs, ok := n.(*ast.ValueSpec); ok {
+			for i, nm := range vs.Names {
+				if i < len(vs.Values) {
+					if lit, ok := vs.Values[i].(*ast.BasicLit); ok && lit.Kind == token.STRING {
+						v, _ := strconv.Unquote(lit.Value)
+						localConsts[nm.Name] = v
+					}
+				}
+			}
+		}
+		return true
+	})
 	ast.Inspect(fn.Body, func(n ast.Node) bool {
 		as, ok := n.(*ast.AssignStmt)
 		if !ok || len(as.Rhs) != 1 || len(as.Lhs) < 1 {
@@ -312,13 +400,19 @@ func preparedStmts(fn *ast.FuncDecl) map[string]string {
 		if !ok || sel.Sel.Name != "Prepare" || len(c.Args) != 1 {
 			return true
 		}
-		lit, ok := c.Args[0].(*ast.BasicLit)
-		if !ok {
-			return true
+		text := ""
+		switch a := c.Args[0].(type) {
+		case *ast.BasicLit:
+			text, _ = strconv.Unquote(a.Value)
+		case *ast.Ident:
+			if v, ok := localConsts[a.Name]; ok {
+				text = v
+			} else {
+				text = pkgConsts[a.Name]
+			}
 		}
-		if id, ok := as.Lhs[0].(*ast.Ident); ok {
-			s, _ := strconv.Unquote(lit.Value)
-			out[id.Name] = s
+		if id, ok := as.Lhs[0].(*ast.Ident); ok && text != "" {
+			out[id.Name] = text
 		}
 		return true
 	})
@@ -390,18 +484,44 @@ func main() {
 	}
 	out := os.Args[2]
 	fset := token.NewFileSet()
-	src := filepath.Join(repo, "persist/sqlite/consensus.go")
-	f, err := parser.ParseFile(fset, src, nil, 0)
-	if err != nil {
-		fmt.Fprintln(os.Stderr, err)
-		os.Exit(2)
-	}
+	// every non-test file of the package: functions may be moved between files, SQL text hoisted into constants
+	dir := filepath.Join(repo, "persist/sqlite")
+	names, _ := filepath.Glob(filepath.Join(dir, "*.go"))
+	sort.Strings(names)
 	funcs := map[string]*ast.FuncDecl{}
-	for _, d := range f.Decls {
-		if fd, ok := d.(*ast.FuncDecl); ok {
-			funcs[fd.Name.Name] = fd
+	for _, src := range names {
+		base := filepath.Base(src)
+		if strings.HasSuffix(base, "_test.go") || strings.HasPrefix(base, "zz_verif") {
+			continue
+		}
+		f, err := parser.ParseFile(fset, src, nil, 0)
+		if err != nil {
+			fmt.Fprintln(os.Stderr, err)
+			os.Exit(2)
+		}
+		for _, d := range f.Decls {
+			switch x := d.(type) {
+			case *ast.FuncDecl:
+				if x.Recv == nil || funcs[x.Name.Name] == nil {
+					funcs[x.Name.Name] = x
+				}
+			case *ast.GenDecl:
+				for _, sp := range x.Specs {
+					if vs, ok := sp.(*ast.ValueSpec); ok {
+						for i, nm := range vs.Names {
+							if i < len(vs.Values) {
+								if lit, ok := vs.Values[i].(*ast.BasicLit); ok && lit.Kind == token.STRING {
+									v, _ := strconv.Unquote(lit.Value)
+									pkgConsts[nm.Name] = v
+								}
+							}
+						}
+					}
+				}
+			}
 		}
 	}
+	pkgFuncs = funcs
 	var b strings.Builder
 	b.WriteString("import Hostd.Model.Chain\n/-! GENERATED by extract/chaintable from persist/sqlite/consensus.go — do not edit. -/\nnamespace Hostd.Chain.Gen\nopen Hostd.Chain\n\n")
 	b.WriteString("def genTable : Table\n")
